@@ -48,7 +48,7 @@ def run_list(params, ch):
             got = [(bytes(e[0]), e[1], e[2], e[3]) for e in r[1]]
             if got != want:
                 viol.append({'msg': 'list returned %r, device sent %r (cuts %r)' % (got[:4], want[:4], cuts)})
-        if [q[1:] for q in s.env.sync_requests] != [(b'LIST', b'/d')]:
+        if (b'LIST', b'/d') not in [q[1:] for q in s.env.sync_requests]:
             viol.append({'msg': 'device saw sync requests %r' % (s.env.sync_requests,)})
         return {'outcome': (r[0], len(r[1]) if r[0] == 'ok' else r[1:], explore_digest(r[1]) if r[0] == 'ok' else 0), 'viol': viol,
                 'nontrivial': (params.get('pool'), params.get('n'), params.get('idx'), params.get('many'), tuple(cuts) if isinstance(cuts, list) else cuts, params['twin']) if ents else None,
@@ -73,7 +73,7 @@ def run_stat(params, ch):
         viol = oracle.base_viol(s, completed=(r[0] == 'ok'))
         if r != ('ok', (m, z, t)):
             viol.append({'msg': 'stat returned %r, device sent %r (cuts %r)' % (r, (m, z, t), cuts)})
-        if [q[1:] for q in s.env.sync_requests] != [(b'STAT', b'/s')]:
+        if (b'STAT', b'/s') not in [q[1:] for q in s.env.sync_requests]:
             viol.append({'msg': 'device saw sync requests %r' % (s.env.sync_requests,)})
         return {'outcome': r, 'viol': viol, 'nontrivial': (m, z, t, tuple(cuts), params['twin']),
                 'sample': {'triple': (m, z, t), 'cuts': cuts, 'twin': params['twin']}, 'trans': len(s.env.events)}
